@@ -2,7 +2,7 @@ From Coq Require Import List NArith ZArith Bool Permutation.
 Import ListNotations.
 Require Import MV.Common.Interleave MV.C10.Model MV.C10.Spec MV.C10.Exec
                MV.C10.ProofsConc MV.C10.ProofsConc2 MV.C10.ProofsSeq MV.C10.ExecProofs
-               MV.C10.ProofsBound MV.C10.ProofsRefine MV.C10.ProofsWire MV.C10.ProofsSound MV.C10.ProofsSuffix MV.C10.ProofsAbs MV.C10.ProofsCompose MV.C10.ProofsCompose2 MV.C10.ProofsAbs2.
+               MV.C10.ProofsBound MV.C10.ProofsRefine MV.C10.ProofsWire MV.C10.ProofsSound MV.C10.ProofsSuffix MV.C10.ProofsAbs MV.C10.ProofsCompose MV.C10.ProofsCompose2 MV.C10.ProofsAbs2 MV.C10.ProofsSched MV.C10.ProofsSched2 MV.C10.ProofsSched3.
 Open Scope N_scope.
 Require Import MV.C10.Properties.
 
@@ -178,3 +178,35 @@ Check (C10_absolute_no_wrap_outside_class : forall A f ps sched,
     Forall (fun d => d <= A) (sent (fst c) ++ rawd (fst c) ++ lost (fst c)) /\
     cur (cnt (fst c)) <= A /\ last (cnt (fst c)) <= cur (cnt (fst c))).
 Print Assumptions C10_absolute_no_wrap_outside_class.
+Check (C10_sched_results_follow_programs : forall ps sched,
+  all2 follows ps (map (fun l => rev (results l)) (snd (final ps sched))) = true).
+Print Assumptions C10_sched_results_follow_programs.
+Check (C10_sched_gauge_sets : forall ps sched, only_sets ps = true ->
+  forallb (fun z => existsb (fun z' => (z =? z')%Z) (set_values ps))
+          (gv (gau (fst (final ps sched))) :: gvals_of (map (fun l => rev (results l)) (snd (final ps sched)))) = true).
+Print Assumptions C10_sched_gauge_sets.
+Check (C10_sched_conservation_on_results : forall ps sched,
+  has_uabs ps = false -> all_done (step all_fixed) (final ps sched) = true ->
+  (sumN (sub64 (cur (cnt (fst (final ps sched)))) (last (cnt (fst (final ps sched))))
+         :: deltas_of (map (fun l => rev (results l)) (snd (final ps sched))))) mod two64 = (inc_sum ps) mod two64).
+Print Assumptions C10_sched_conservation_on_results.
+Check (C10_sched_delta_bound_increment_only : forall ps sched,
+  ps <> [] -> MV.C10.Exec.one_flusher ps = true -> has_uabs ps = false -> inc_sum ps < two64 ->
+  forallb (fun d => d <=? inc_sum ps)
+          (sub64 (cur (cnt (fst (final ps sched)))) (last (cnt (fst (final ps sched))))
+           :: deltas_of (map (fun l => rev (results l)) (snd (final ps sched)))) = true).
+Print Assumptions C10_sched_delta_bound_increment_only.
+Check (C10_sched_delta_bound_increment_free : forall ps sched,
+  ps <> [] -> MV.C10.Exec.one_flusher ps = true -> incfree ps = true -> abs_max ps < two64 ->
+  known_class (CSched ps sched) = None -> all_done (step all_fixed) (final ps sched) = true ->
+  forallb (fun d => d <=? abs_max ps)
+          (sub64 (cur (cnt (fst (final ps sched)))) (last (cnt (fst (final ps sched))))
+           :: deltas_of (map (fun l => rev (results l)) (snd (final ps sched)))) = true).
+Print Assumptions C10_sched_delta_bound_increment_free.
+Check (C10_spec_ok_on_model_sched_partial : forall ps sched,
+  known_class (CSched ps sched) = None -> sched_wf ps sched ->
+  spec_ok (CSched ps sched) (run_case (CSched ps sched)) = true).
+Print Assumptions C10_spec_ok_on_model_sched_partial.
+Check (C10_spec_ok_on_model_partial : forall c,
+  known_class c = None -> case_wf c -> spec_ok c (run_case c) = true).
+Print Assumptions C10_spec_ok_on_model_partial.
